@@ -183,8 +183,9 @@ impl M {
     fn l1(t: u8, v: u8) -> OrderBookL1 {
         OrderBookL1 {
             last_update_time: time_of(t),
-            best_bid: Some(Level::new(Decimal::from(100 + v as i64), Decimal::ONE)),
-            // value 2: a one-sided book (no ask)
+            // value 2: a one-sided book (no ask); value 3: an empty book (a cleared book / halted market
+            // is a real, timestamped message: it too must not be overwritten by an older quote)
+            best_bid: (v < 3).then(|| Level::new(Decimal::from(100 + v as i64), Decimal::ONE)),
             best_ask: (v < 2).then(|| Level::new(Decimal::from(102 + v as i64), Decimal::ONE)),
         }
     }
@@ -258,7 +259,7 @@ impl M {
             let l1 = &inst.data.l1;
             if *l1 != OrderBookL1::default() {
                 let t = tt(l1.last_update_time);
-                let v = (0..3u8).find(|v| t <= 3 && Self::l1(t, *v) == *l1);
+                let v = (0..4u8).find(|v| t <= 3 && Self::l1(t, *v) == *l1);
                 out[L1[w]] = (Some((t, v.unwrap_or(9))), false, v.is_some());
             }
             if let Some(p) = &inst.data.last_traded_price {
@@ -543,14 +544,14 @@ fn models(tier: crate::core::Tier) -> Vec<Spec> {
         sp("orders+balance", &[ORD[0], ORD[1], BAL[0]], None, 2),
         sp("one-exchange-mixed", &[BAL[1], ORD[1], L1[1], TRD[1]], None, 2),
         // top of book with a third value: a one-sided book
-        sp("top-of-book-one-sided", &[L1[0], L1[1], TRD[0]], None, 3),
+        sp("top-of-book-one-sided-or-empty", &[L1[0], L1[1], TRD[0]], None, 4),
         // the engine's own entry point (Engine::process), trading disabled and enabled
         // (items are independent in the code; their interplay is covered by the models above, so the engine
         // wrapper is driven with small item sets: every item kind under both trading states)
         sp("engine-process/trading=disabled/account-items", &[BAL[0], ORD[0]], Some(TradingState::Disabled), 2),
-        sp("engine-process/trading=disabled/market-items", &[L1[0], TRD[0]], Some(TradingState::Disabled), 3),
+        sp("engine-process/trading=disabled/market-items", &[L1[0], TRD[0]], Some(TradingState::Disabled), 4),
         sp("engine-process/trading=enabled/account-items", &[BAL[1], ORD[1]], Some(TradingState::Enabled), 2),
-        sp("engine-process/trading=enabled/market-items", &[L1[1], TRD[1]], Some(TradingState::Enabled), 3),
+        sp("engine-process/trading=enabled/market-items", &[L1[1], TRD[1]], Some(TradingState::Enabled), 4),
     ];
     if tier == crate::core::Tier::Thorough {
         v.push(sp("account-items/4", &[BAL[0], BAL[1], ORD[0], ORD[1]], None, 2));
@@ -602,12 +603,12 @@ pub fn run(ctx: &Ctx) -> Outcome {
             "distinct_impl_states": impl_states,
             "models": parts,
             "samples": samples,
-            "rule": "BFS to fixpoint; items: 0,1 balances; 2,3 orders; 4,5 top of book; 6,7 last trade; messages (item, t in 1..3, value in 2; top of book: 3 values, the third a one-sided book) + full account snapshots + cancel-sent, all offered in every state; each transition rebuilds the real EngineState and applies the message through update_from_account / update_from_market, or (engine-process models) rebuilds a real Engine around that state and applies it through Engine::process",
+            "rule": "BFS to fixpoint; items: 0,1 balances; 2,3 orders; 4,5 top of book; 6,7 last trade; messages (item, t in 1..3, value in 2; top of book: up to 4 values, the third a one-sided book, the fourth an empty book) + full account snapshots + cancel-sent, all offered in every state; each transition rebuilds the real EngineState and applies the message through update_from_account / update_from_market, or (engine-process models) rebuilds a real Engine around that state and applies it through Engine::process",
         }),
         assumptions: vec![
             "L1 events carry last_update_time == time_exchange (as every connector builds them)".into(),
             "order reports keep quantity remaining > 0 (terminal reports belong to C01)".into(),
-            "three exchange instants (+1 s, +1 s + 1 us, +2.5 s), two values per item (three for top of book)".into(),
+            "three exchange instants (+1 s, +1 s + 1 us, +2.5 s), two values per item (up to four for top of book: two two-sided, one one-sided, one empty)".into(),
         ],
     }
 }
